@@ -779,6 +779,12 @@ def check_nothing_dropped(ctx, rep, which="decode"):
             if strip_generics(nm).endswith(("BTreeMap::remove", "Dict::remove")) and which == "decode":
                 # the one permitted removal: key "ver", from the meta dict of the grid object itself (parameter _1), not of an element
                 rcv, key_arg = (args + ["", ""])[:2]
+                # a receiver that is the payload of an Option held in a local (`if let Some(m) = meta.as_mut()`): say where the local comes from
+                for _i in range(3):
+                    mm = re.search(r"\b_(\d+)\b(?= as )", rcv)
+                    if not mm or int(mm.group(1)) <= body.arg_count:
+                        break
+                    rcv = rcv[:mm.start()] + repr(G.describe_place(body, {"l": int(mm.group(1)), "p": []})) + rcv[mm.end():]
                 if key_arg == "conststr:ver" and "conststr:meta" in rcv and "elem(" not in rcv and re.search(r"get_dict\(_1\**, conststr:meta\)", rcv):
                     rep.ok("T-HAYSON", "nothing-dropped:%s:remove-ver-from-grid-meta" % fn, body.where(bi), "`ver` is taken out of the grid's own meta (it is stored in Grid.ver)")
                     continue
